@@ -19,7 +19,7 @@
 From Coq Require Import List ZArith Bool.
 From SVC Require Import Base.AMap Base.Res Base.Dec Model.Types Model.Pricing
   Model.Handlers Model.EndBlock Model.Step Proofs.Inv Proofs.TraceLemmas Proofs.TraceSettle
-  Proofs.TraceMoney Proofs.DecProofs Proofs.StepSpecs_deposit Proofs.GapC02 Proofs.GapC02b Proofs.GapC02c Proofs.GapC02d.
+  Proofs.TraceMoney Proofs.DecProofs Proofs.StepSpecs_deposit Proofs.GapC02 Proofs.GapC02b Proofs.GapC02c Proofs.GapC02d Proofs.GapC02e.
 Import ListNotations.
 Open Scope Z_scope.
 
@@ -286,3 +286,15 @@ Theorem C02_issue_has_debit : forall cfg s r p cons f,
   exists amt, In (EvDebit (rid_ctx r) cons amt) (log s) /\ f <= amt.
 Proof. exact GapC02d.issue_has_debit. Qed.
 Print Assumptions C02_issue_has_debit.
+
+(* history level, the summary: in every reachable state every request that was ever issued is
+   either still pending (stored, active, not past its expiry height, nothing but its issue event
+   in the log) or has exactly one of the four closed traces -- and a pending request is settled
+   by the EndBlock of its expiry height at the latest (C02_settled_at_expiry) *)
+Theorem C02_issued_settled_or_pending : forall cfg s r p c f,
+  wf_cfg cfg -> Reach cfg s -> In (EvIssue r p c f) (log s) ->
+  (exists q, get r (reqs s) = Some q /\ r_active q = true /\ r_prov q = p /\ r_fee q = f
+        /\ height s <= r_exp q /\ tr r (log s) = [EvIssue r p c f])
+  \/ closed cfg r p c f (tr r (log s)).
+Proof. exact GapC02e.issued_settled_or_pending. Qed.
+Print Assumptions C02_issued_settled_or_pending.
